@@ -934,3 +934,124 @@ VARIANTS += [
  dict(name='setter-void-helper-stores-only-sometimes', expect='flagged(constructor/)',
       edits=_void_setters(client_body="\tif v.pluginManager != nil {\n\t\tv.revocationClient = legacy\n\t}\n")),
 ]
+
+# ---- guards weakened by an extra conjunct (guard-mutation campaign) --------------------------------------------------
+# The must-pass rules (result/*, aggregator/*) are not attached to the existence of the test: a guard that is no longer
+# taken on some path (`false && (C)`, or a realistic conjunct built from what is in scope) is flagged; the same guard
+# spelled differently (operands swapped, tagless switch, bool local, predicate helper) is not.
+_ERR_GUARD = '\tif err != nil {\n\t\tlogger.Debug("Error while checking revocation status, err: %s", err.Error())'
+def _err_guard(cond):
+    return _ERR_GUARD.replace('if err != nil {', 'if %s {' % cond)
+_ERR_BLOCK = """	if err != nil {
+		logger.Debug("Error while checking revocation status, err: %s", err.Error())
+		return &notation.ValidationResult{
+			Type:   trustpolicy.TypeRevocation,
+			Action: outcome.VerificationLevel.Enforcement[trustpolicy.TypeRevocation],
+			Error:  fmt.Errorf("unable to check revocation status, err: %s", err.Error()),
+		}
+	}
+"""
+_ERR_BODY = _ERR_BLOCK.split('\n', 1)[1].rsplit('\t}\n', 1)[0]
+_AGG_SWITCH = """	switch finalResult {
+	case revocationresult.ResultOK:
+		logger.Debug("No verification impacting errors encountered while checking revocation, status is OK")
+	case revocationresult.ResultRevoked:
+		result.Error = fmt.Errorf("signing certificate with subject %q is revoked", problematicCertSubject)
+	default:
+		// revocationresult.ResultUnknown
+		result.Error = fmt.Errorf("signing certificate with subject %q revocation status is unknown", problematicCertSubject)
+	}
+"""
+def _agg_if(cond):
+    return """	if %s {
+		if finalResult == revocationresult.ResultRevoked {
+			result.Error = fmt.Errorf("signing certificate with subject %%q is revoked", problematicCertSubject)
+		} else {
+			result.Error = fmt.Errorf("signing certificate with subject %%q revocation status is unknown", problematicCertSubject)
+		}
+	} else {
+		logger.Debug("No verification impacting errors encountered while checking revocation, status is OK")
+	}
+""" % cond
+_BEFORE_AGG = '// revocationFinalResult returns the final'
+def _with_helper(find, replace, helper):
+    return [(V, find, replace), (V, _BEFORE_AGG, helper + '\n' + _BEFORE_AGG)]
+_BOTH_NIL = '\tif v.revocationCodeSigningValidator == nil && v.revocationClient == nil {\n\t\treturn &notation.ValidationResult{'
+_CHAIN = 'outcome.EnvelopeContent.SignerInfo.CertificateChain'
+_WHY_G = 'the accepted fact is the must-pass fact on the value that hands on the validator error / the aggregate, whichever branch (of the function or of a predicate helper the engine composed) established it'
+
+VARIANTS += [
+ # the validator's error
+ dict(name='validator-error-guard-only-for-chains-longer-than-one', file=V, expect='flagged(result/validator-error)',
+      find=_ERR_GUARD, replace=_err_guard('len(%s) > 1 && err != nil' % _CHAIN)),
+ dict(name='validator-error-guard-disabled-by-false-conjunct', file=V, expect='flagged(result/validator-error)',
+      find=_ERR_GUARD, replace=_err_guard('false && (err != nil)')),
+ dict(name='validator-error-guard-only-when-enforced', file=V, expect='flagged(result/validator-error)',
+      find=_ERR_GUARD, replace=_err_guard('outcome.VerificationLevel.Enforcement[trustpolicy.TypeRevocation] == trustpolicy.ActionEnforce && err != nil')),
+ dict(name='validator-error-guard-nested-under-empty-results', file=V, expect='flagged(result/validator-error)',
+      find=_ERR_BLOCK, replace='\tif len(certResults) == 0 {\n' + _ERR_BLOCK + '\t}\n'),
+ dict(name='validator-error-predicate-helper-skips-single-certificate-chains', expect='flagged(result/validator-error)',
+      edits=_with_helper(_ERR_GUARD, _err_guard('consultationFailed(err, %s)' % _CHAIN),
+                         'func consultationFailed(problem error, chain []*x509.Certificate) bool {\n\treturn len(chain) > 1 && problem != nil\n}\n')),
+ dict(name='validator-error-predicate-helper-asked-about-another-error', expect='flagged(result/validator-error)',
+      edits=_with_helper(_ERR_GUARD, _err_guard('consultationFailed(ctx.Err()) && err != nil'),
+                         'func consultationFailed(problem error) bool {\n\treturn problem != nil\n}\n')),
+ dict(name='benign-validator-error-test-operands-swapped', file=V, expect='silent', find=_ERR_GUARD, replace=_err_guard('nil != err')),
+ dict(name='benign-validator-error-test-in-tagless-switch', file=V, expect='silent',
+      find=_ERR_BLOCK, replace='\tswitch {\n\tcase err != nil:\n' + _ERR_BODY + '\t}\n'),
+ dict(name='benign-validator-error-test-held-in-bool-local', file=V, expect='silent',
+      find=_ERR_GUARD, replace=_err_guard('failed := err != nil; failed')),
+ dict(name='benign-validator-error-test-in-predicate-helper', expect='silent', why=_WHY_G,
+      edits=_with_helper(_ERR_GUARD, _err_guard('consultationFailed(err)'),
+                         'func consultationFailed(problem error) bool {\n\treturn problem != nil\n}\n')),
+ dict(name='benign-validator-error-or-missing-results-fail', file=V, expect='silent',
+      why='a disjunct makes the guard stricter: every success path still passes err == nil',
+      find=_ERR_BLOCK, replace=_ERR_BLOCK.replace('if err != nil {', 'if err != nil || certResults == nil {').replace('%s", err.Error())', '%v", err)')),
+ # the aggregate
+ dict(name='aggregate-test-only-for-more-than-one-result', file=V, expect='flagged(result/aggregate-ok)',
+      find=_AGG_SWITCH, replace=_agg_if('len(certResults) > 1 && finalResult != revocationresult.ResultOK')),
+ dict(name='aggregate-test-disabled-by-false-conjunct', file=V, expect='flagged(result/aggregate-ok)',
+      find=_AGG_SWITCH, replace=_agg_if('false && (finalResult != revocationresult.ResultOK)')),
+ dict(name='unknown-aggregate-fails-only-when-enforced', file=V, expect='flagged(result/aggregate-ok)',
+      find='\t\tresult.Error = fmt.Errorf("signing certificate with subject %q revocation status is unknown", problematicCertSubject)\n',
+      replace='\t\tif result.Action == trustpolicy.ActionEnforce {\n\t\t\tresult.Error = fmt.Errorf("signing certificate with subject %q revocation status is unknown", problematicCertSubject)\n\t\t}\n'),
+ dict(name='aggregate-predicate-helper-skips-single-results', expect='flagged(result/aggregate-ok)',
+      edits=_with_helper(_AGG_SWITCH, _agg_if('chainFlagged(finalResult, certResults)'),
+                         'func chainFlagged(verdict revocationresult.Result, perCert []*revocationresult.CertRevocationResult) bool {\n\treturn len(perCert) > 1 && verdict != revocationresult.ResultOK\n}\n')),
+ dict(name='aggregate-predicate-helper-accepts-unknown', expect='flagged(result/aggregate-ok)',
+      edits=_with_helper(_AGG_SWITCH, _agg_if('!chainCleared(finalResult)'),
+                         'func chainCleared(verdict revocationresult.Result) bool {\n\treturn verdict == revocationresult.ResultOK || verdict == revocationresult.ResultUnknown\n}\n')),
+ dict(name='aggregate-predicate-helper-asked-about-a-constant', expect='flagged(result/aggregate-ok)',
+      edits=_with_helper(_AGG_SWITCH, _agg_if('!chainCleared(revocationresult.ResultOK)'),
+                         'func chainCleared(verdict revocationresult.Result) bool {\n\treturn verdict == revocationresult.ResultOK\n}\n')),
+ dict(name='benign-aggregate-test-as-if', file=V, expect='silent', find=_AGG_SWITCH, replace=_agg_if('finalResult != revocationresult.ResultOK')),
+ dict(name='benign-aggregate-test-as-if-operands-swapped', file=V, expect='silent', find=_AGG_SWITCH, replace=_agg_if('revocationresult.ResultOK != finalResult')),
+ dict(name='benign-aggregate-test-in-predicate-helper', expect='silent', why=_WHY_G,
+      edits=_with_helper(_AGG_SWITCH, _agg_if('!chainCleared(finalResult)'),
+                         'func chainCleared(verdict revocationresult.Result) bool {\n\treturn verdict == revocationresult.ResultOK\n}\n')),
+ dict(name='benign-aggregate-test-in-negative-predicate-helper', expect='silent', why=_WHY_G,
+      edits=_with_helper(_AGG_SWITCH, _agg_if('chainFlagged(finalResult)'),
+                         'func chainFlagged(verdict revocationresult.Result) bool {\n\treturn verdict != revocationresult.ResultOK\n}\n')),
+ # the other guards of the revocation path
+ dict(name='both-nil-guard-only-for-chains-longer-than-one', file=V, expect='flagged(result/both-validators-nil)',
+      find=_BOTH_NIL, replace=_BOTH_NIL.replace('if v.', 'if len(%s) > 1 && v.' % _CHAIN)),
+ dict(name='both-nil-guard-disabled-by-false-conjunct', file=V, expect='flagged(result/both-validators-nil)',
+      find=_BOTH_NIL, replace=_BOTH_NIL.replace('if v.revocationCodeSigningValidator == nil && v.revocationClient == nil {', 'if false && (v.revocationCodeSigningValidator == nil && v.revocationClient == nil) {')),
+ dict(name='length-agreement-only-for-chains-longer-than-one', file=V, expect='flagged(aggregator/length-agreement)',
+      find='\tif len(certResults) != len(certChain) {\n\t\t// every certificate', replace='\tif len(certChain) > 1 && len(certResults) != len(certChain) {\n\t\t// every certificate'),
+ dict(name='revoked-priority-only-when-nothing-is-ok', file=V, expect='flagged(aggregator/decision)',
+      find='\tif revokedFound {\n\t\tproblematicCertSubject = revokedCertSubject', replace='\tif numOKResults == 0 && revokedFound {\n\t\tproblematicCertSubject = revokedCertSubject'),
+ dict(name='all-ok-test-bypassed-for-a-single-result', file=V, expect='flagged(aggregator/decision)',
+      find='\tif numOKResults == len(certResults) {\n\t\tfinalResult = revocationresult.ResultOK', replace='\tif len(certResults) <= 1 || numOKResults == len(certResults) {\n\t\tfinalResult = revocationresult.ResultOK'),
+ # guards of the campaign's survivor list that do not concern this property
+ dict(name='benign-server-error-logging-guard-disabled', file=V, expect='silent',
+      why='the guard selects log lines only: the per-certificate Result decides, not the per-server errors',
+      find='\t\t\tif serverResult.Error != nil {', replace='\t\t\tif false && (serverResult.Error != nil) {'),
+ dict(name='benign-ocsp-fallback-logging-guard-disabled', file=V, expect='silent',
+      why='the guard chooses between Debugf and Errorf for an OCSP server error of a certificate that fell back to CRL',
+      find='\t\t\t\tif certResult.RevocationMethod == revocationresult.RevocationMethodOCSPFallbackCRL && serverResult.RevocationMethod == revocationresult.RevocationMethodOCSP {',
+      replace='\t\t\t\tif false && (certResult.RevocationMethod == revocationresult.RevocationMethodOCSPFallbackCRL && serverResult.RevocationMethod == revocationresult.RevocationMethodOCSP) {'),
+ dict(name='benign-for-C05-timestamping-default-not-installed', file=V, expect='silent',
+      why='the timestamping validator is consulted for the TSA chain (C06), never for the signing chain: the code-signing validator / client and the signing-chain verdict are untouched',
+      find='\tif revocationTimestampingValidator == nil {', replace='\tif false && (revocationTimestampingValidator == nil) {'),
+]
